@@ -27,23 +27,7 @@ def run(ctx):
     # the proof is bound to the key: both sides hash (a function of) the key itself
     for r in pop:
         ctx.ob("E5.pop-binds-key", r["fn"].key, r["msg"][0] in ("pk", "aug") or "PKBYTES" in K._canon_nf(r), "%s hashes %s - the message must contain the key's own bytes" % (r["fn"].key, r["nf"]), where=where(r["fn"], r["bb"]))
-    # wrappers
-    f = ctx.need_fn("E5.chain", "SecretKey<C>::proof_of_possession")
-    if f is not None:
-        ev = evaluate(f)
-        s = [x for x in ev.sites.values() if x.callee[0] == "BlsSignaturePop::pop_prove"]
-        ok = bool(s) and F.projection_root(strip_sites(s[0].args[0])) is not None and F.projection_root(strip_sites(s[0].args[0]))[0].a[1] == "self"
-        ctx.ob("E5.chain", "SecretKey<C>::proof_of_possession", ok, "pop_prove(&self.0): the key's own scalar, unmodified", where=where(f))
-        from .spec import built_variants
-
-        wrapped = bool(built_variants(ev.ret, "ProofOfPossession"))
-        ctx.ob("E5.chain", "SecretKey<C>::proof_of_possession/result", wrapped, "result wraps the pop_prove output", where=where(f))
-    f = ctx.need_fn("E5.chain", "ProofOfPossession<C>::verify")
-    if f is not None:
-        ev = evaluate(f)
-        r = strip_sites(ev.ret)
-        ok = r.op == "call" and B.cname(r) == "BlsSignaturePop::pop_verify" and [F.projection_root(a) and F.projection_root(a)[0].a[1] for a in r.a[1]] == ["pk", "self"]
-        ctx.ob("E5.chain", "ProofOfPossession<C>::verify", ok, "returns pop_verify(pk.0, self.0) directly: %s" % show(r, 4), where=where(f))
+    K.check_pop_chain(ctx, P)
     # pop_verify passes pk and sig to core_verify unmodified
     f = ctx.need_fn("E6.uses-all", "BlsSignaturePop::pop_verify")
     if f is not None:
